@@ -167,7 +167,7 @@ def value_task(args):
                 nw = rx.charset_re(rx._neg([(0x20, 0x20), (0x9, 0xA), (0xD, 0xD)]))
                 anyc = z3.Star(rx.charset_re([(0, 0xFFFF)]))
                 E.assume(z3.InRe(term, z3.Intersect(z3.Complement(lex.COLLAPSED_RE), lex.NO_EXOTIC_RE, z3.Concat(nw, anyc, nw))))
-                for ax in lex.collapse_axioms(term, d.enums or []):
+                for ax in lex.collapse_axioms(term, ()):
                     E.ctx.solver.add(ax)
             try:
                 cls(v)
@@ -363,6 +363,29 @@ def attr_task(args):
             status = 'undecided' if (uns or res8['ok'] is None) else ('discharged' if res8['ok'] else 'violated')
             obs.append(dict(oid=f'C08/attr/{tkey}/{qn}/{tag}', props=['C08'], status=status, detail=(uns[0] if uns else res8['detail']), paths=res8['paths'], name=name, cname=cname,
                             kind='attr8', qn=qn, tag=tag, witness=res8['wit'], level='proved'))
+    # ---- conservation: an attribute text that is NOT in the lexical space is reported (raise), never dropped or altered silently
+    for qn, tname, req in elem.declared_attrs(tkey):
+        if tname not in xsdspec.SIMPLE or qn.startswith(('xml:', 'xlink:')):
+            continue
+        d = xsdspec.SIMPLE[tname]
+        sol = z3.Solver()
+        sol.set('timeout', 5000)
+        t = z3.String('t')
+        sol.add(z3.InRe(t, z3.Intersect(lex.COLLAPSED_RE, lex.NO_EXOTIC_RE, BMP())), z3.Length(t) >= 1, z3.Length(t) <= 6, z3.Not(_lex_text(d, t)),
+                z3.Not(z3.InRe(t, _res()[0])))
+        if sol.check() != z3.sat:
+            continue          # every short text is valid for this type (xs:string, xs:token)
+        bad_text = V._unescape(sol.model()[t].as_string())
+        key = qn
+        try:
+            out = P._et_xml_to_music_xml(Node(name, str(value) if value != '' else None, {key: bad_text}))
+            stored = out._attributes.get(qn)
+            ok = stored == bad_text
+            det = None if ok else f'invalid attribute text {qn}={bad_text!r} is neither rejected nor kept: attributes {dict(out._attributes)!r}'
+        except Exception as ex:
+            ok, det = True, None
+        obs.append(dict(oid=f'C09/conservation/invalid-attr/{tkey}/{qn}', props=['C09'], status='discharged' if ok else 'violated', detail=det, paths=1, name=name, cname=cname,
+                        kind='badattr', qn=qn, witness=repr(bad_text), level='finite-complete'))
     return obs
 
 
@@ -469,6 +492,11 @@ except Exception as ex:
 print({o.get('detail')!r})
 sys.exit(0 if ok else 1)
 '''
+    if k == 'badattr':
+        tk = next(iter(xsdspec.element_types()[o['name']]))
+        val = elem.valid_value(tk)
+        return REPLAY_TEXT.format(name=o['name'], attrs=f", {{{o['qn']!r}: {o['witness']}}}", text=repr(str(val)) if val != '' else 'None',
+                                  okexpr=f"e.attributes.get({o['qn']!r}) == {o['witness']}", detail=o.get('detail')).replace("print('parser raises', type(ex).__name__, ex); ok = False", "print('parser raises', type(ex).__name__, '(fine: reported)'); ok = True")
     if k == 'tail':
         return '''import xml.etree.ElementTree as ET
 from musicxml.parser.parser import _parse_node
